@@ -19,7 +19,7 @@ func TestC08(t *testing.T) {
 		Assumptions: []string{"secrecy is decided in its observable form only (markers absent from the wire)"},
 		NCases: func(tier string) int {
 			if tier == "thorough" {
-				return 1600
+				return 8000
 			}
 			return 96
 		},
